@@ -1,9 +1,9 @@
 #!/bin/bash
 # save_seed.sh <Cxx> <n> : copies a confirmed seeded change from its scratch worktree /tmp/wt_<Cxx> to seeded/<Cxx>-<n>/
-p=$1; n=$2; d=/verif/seeded/$p-$n; wt=/tmp/wt_$p
+p=$1; n=$2; wt=/tmp/wt_${3:-$p}; d=/verif/seeded/$p-$n
 mkdir -p $d
 cp $wt/seed/patch.diff $d/patch.diff
 cp $wt/seed/notes.md $d/notes.md 2>/dev/null
 for f in $wt/seed/seed_demo*.rs; do cp $f $d/; done
-grep -v "^     Running\|^--\|called .Result::unwrap" /tmp/confirm_$p.log > $d/confirm.log
+grep -v "^     Running\|^--\|called .Result::unwrap" /tmp/confirm_${3:-$p}.log > $d/confirm.log
 ls $d
